@@ -65,4 +65,40 @@ pub open spec fn rc_final(cs: Seq<Constraint>, nb: int, n0: int) -> bool {
     cs.len() == rc_ng(nb) + 1
     && forall|t: int| 0 <= t < cs.len() ==> (#[trigger] cs[t]).wf() && !cs[t].has_pi() && gate_of(cs[t]) == rc_row(nb, n0, t)
 }
+
+/// all rows `range_check_even(w, nb)` appends (nb even), accumulators allocated from n0, w = index of the checked witness
+pub open spec fn rce_rows(nb: int, n0: int, w: nat) -> Seq<GateV> {
+    if nb == 0 {
+        seq![arith_row(0, 1, 0, 0, 0, 0, w, 0, 0, 0)]
+    } else {
+        rc_rows(nb, n0).push(arith_row(0, 1, neg1(), 0, 0, 0, (n0 + nb / 2 - 1) as nat, w, 0, 0))
+    }
+}
+/// witnesses allocated by range_check_even
+pub open spec fn rce_wits(nb: int) -> int { nb / 2 }
+
+/// all rows `range_check(v, nb)` appends, any nb <= 256: even widths go straight to the base-4 chain; odd widths split
+/// v = lower + 2^(nb-1) * top with lower checked on nb-1 bits and top boolean
+pub open spec fn rcall_rows(nb: int, n0: int, v: nat) -> Seq<GateV> {
+    if nb % 2 == 0 {
+        rce_rows(nb, n0, v)
+    } else {
+        let lower = n0 as nat;
+        let top = (n0 + 1 + rce_wits(nb - 1)) as nat;
+        let rec = (top + 1) as nat;
+        rce_rows(nb - 1, n0 + 1, lower)
+            .push(arith_row(1, 0, 0, neg1(), 0, 0, top, top, top, 0))
+            .push(arith_row(0, 1, (pow2((nb - 1) as nat) as int) % R(), neg1(), 0, 0, lower, top, rec, 0))
+            .push(arith_row(0, 1, neg1(), 0, 0, 0, rec, v, 0, 0))
+    }
+}
+pub open spec fn rcall_wits(nb: int) -> int { if nb % 2 == 0 { rce_wits(nb) } else { rce_wits(nb - 1) + 3 } }
+
+/// C09: "both entry points emit identical gates for equal widths": component_range::<P> (rows rce_rows(min(2P,256)))
+/// and component_range_bits::<2P> (rows rcall_rows(2P)) agree whenever 2P <= 256.
+pub proof fn lemma_entry_points_agree(p: int, n0: int, w: nat)
+    requires 0 <= p, 2 * p <= 256
+    ensures rcall_rows(2 * p, n0, w) == rce_rows(if 2 * p <= 256 { 2 * p } else { 256 }, n0, w)
+{
+}
 }
